@@ -925,7 +925,9 @@ def _run(ctx):
                 "generate_omitted_as_internal), snake/acronym/digit-named pools; requests of 0..7 fields drawn from reserved-word and "
                 "plain pools (REQUIRED at random positions, repeated/map/optional/oneof/message/enum; field NUMBERS shuffled/gapped/reversed "
                 "independently of the declaration order), Empty requests, streaming and "
-                "LRO RPCs x transports {grpc, rest, grpc+rest, rest+grpc}; distinct by API spec; every API is non-trivial")
+                "LRO RPCs, optional Locations/IAMPolicy mixins and add-iam-methods, services spread over 1..3 proto files x transports "
+                "{grpc, rest, grpc+rest, rest+grpc}; per API 10..16 old-style call sites for the emitted transformer; distinct by API spec "
+                "and by (API, call site); every API is non-trivial")
     ctx.assume("one target proto package without sub-packages: service names are pairwise distinct (WF)")
     ctx.assume("RPC names are pairwise distinct up to case/underscores inside a service's snake_case image (two RPCs mapping to one python method name are C12's subject)")
     ctx.assume("no request message has both `x` and `x_` (python-level field names pairwise distinct)")
@@ -988,12 +990,19 @@ CLAIM = dict(
           'grpc-async), that proto and library package are recorded, that legacy_flattened_fields is the stable partition '
           '"required first, otherwise declaration order" and a permutation of the request fields, and that the fix-up table has an '
           'entry for every RPC name (carrying exactly that RPC\'s fields when RPCs sharing a name share their request fields). '
+          'Also modelled and proved: the add-iam-methods rows of the table (looked up with their fixed parameters) and the emitted '
+          'transformer\'s leave_Call (positional argument i -> table name i, surplus positionals -> retry/timeout/metadata, calls '
+          'with request= unchanged: idempotent; keyword arguments are re-bound positionally — counterexample theorem); the legacy '
+          'order is independent of field numbers; toSnakeCase and makePrivate are proved equal to the functions translated from the source. '
           'Regression theorem for the repaired case-insensitive unique(); counterexample theorems: shared RPC names, extended operations on the asyncio client, '
           'Foo/FooAsync class clash, duplicate service names. Tie: T2 API.gapic_metadata, client_name, async_client_name, '
           'client_method_name, to_snake_case, legacy_flattened_fields vs the model on generated APIs; T3 the emitted '
           'gapic_metadata.json and METHOD_TO_PARAMS (AST + import with libcst) vs the model and, independent of the model, vs '
           'introspection of the imported package (class exists and serves the kind, method exists with a request parameter) and '
-          'the input descriptors (required first, declaration order, python-level field names of the emitted request class).'),
+          'the input descriptors (required first, declaration order, python-level field names of the emitted request class); the emitted '
+          'transformer is RUN with libcst on generated old-style call sites (positional, surplus control arguments, keywords in and out '
+          'of order, nested calls, already fixed calls, foreign and bare calls) and compared with the model and with the required-first '
+          'declaration order of the input descriptors.'),
     technique='Lean 4 theorems (list permutation / no-duplicate arguments over a get_or_create model) + differential T2/T3 against the generator and the emitted package',
     design='7.15',
     note=('Naming (module namespace, versioned module name) is read from the real Naming object and is C11\'s subject. '
